@@ -55,6 +55,7 @@ def _parser_conformance(ctx, tier, seed):
                     if d[k] == "None":
                         d[k] = {"none": True}
                 d["args"] = {"some": False, "list": []} if d["args"] == "None" else {"some": True, "list": d["args"]}
+                d["val"] = {"some": False, "c": []} if d["val"] == "None" else {"some": True, "c": list(d["val"])}
             return d
         if isinstance(v, list):
             return [strip(x) for x in v]
